@@ -735,6 +735,12 @@ fn collect_free_variables(expr: &SpannedExpr, vars: &mut Vec<String>, bound: &mu
                     RecordKey::Dynamic(expr) | RecordKey::Spread(expr) => {
                         collect_free_variables(expr, vars, bound);
                     }
+                    // `{name}` reads the variable `name`
+                    RecordKey::Shorthand(name) => {
+                        if !bound.contains(name) {
+                            vars.push(name.clone());
+                        }
+                    }
                     _ => {}
                 }
                 if !matches!(entry.key, RecordKey::Shorthand(_) | RecordKey::Spread(_)) {
